@@ -89,6 +89,48 @@ def run_realfills(spec, tier, seed):
                 res.distinct.add(f'{year}|group|{os.path.basename(call["argv"][0])}|{g.split(".")[-1]}')
                 if len(boxes) > 1:
                     res.violation(f'C18|{year}|{os.path.basename(call["argv"][0])}|exclusive-group-two-on-in-fill|{g.split(".")[-1]}', f'{year} {fam} {p.key}: boxes {boxes} of one exclusive group are on together', {'year': year, 'persona': p.describe()})
+    # per-owner copies of one form (8889:you / 8889:spouse, 8606:...): the identity boxes of each copy show that copy's owner - a box
+    # mapped to the taxpayer's SSN line reads fine on the taxpayer's copy and wrong on the spouse's
+    import re as _re
+    for fam, p in scen.directed_personas(year, seed, 2 if tier == 'quick' else 12):
+        out = scen.solve_persona(p)
+        if out.exc is not None or out.ret is not True:
+            continue
+        sol = scen.typed_solution(out)
+        owners = {}
+        for key in sol:
+            full = key.split('.', 1)[0]
+            if ':' in full and full.split(':', 1)[1] in ('you', 'spouse'):
+                owners.setdefault(full.split(':', 1)[0], set()).add(full.split(':', 1)[1])
+        both = [f for f, o in owners.items() if o == {'you', 'spouse'}]
+        ssn = {w: _re.sub(r'\D', '', str(sol.get(f'1040.{w}_ssn', ''))) for w in ('you', 'spouse')}
+        if not both or not ssn['you'] or not ssn['spouse'] or ssn['you'] == ssn['spouse']:
+            continue
+        r = pdfdrive.fill(solution_as_cli(out, year), year)
+        res.evaluations += 1
+        res.count('real_fills_with_copies_of_both_spouses')
+        if r.exc is not None:
+            continue
+        seen = {}
+        for call in r.calls:
+            if call['op'] != 'fill_form':
+                continue
+            tpl = pdfspec.parse(call['argv'][0])
+            try:
+                pairs = pdfdrive.parse_fdf(call['fdf_bytes'])
+            except pdfdrive.FDFSyntaxError:
+                continue
+            for t, v in pairs:
+                tf = tpl.fields.get(t)
+                if tf is not None and tf.kind == 'text' and 'social security number' in (tf.speak or '').lower() and not _re.search(r'spouse.{0,3}s social', (tf.speak or '').lower()) and v:
+                    seen.setdefault((os.path.basename(call['argv'][0]), t), []).append(_re.sub(r'\D', '', v))
+        for (tb, t), vals in seen.items():
+            if len(vals) != 2:
+                continue
+            res.count('owner_identity_boxes_checked')
+            res.distinct.add(f'{year}|owner|{tb}|{t.split(".")[-1]}')
+            if sorted(vals) != sorted(ssn.values()):
+                res.violation(f'C18|{year}|{tb}|copy-shows-other-owner|{t.split(".")[-1]}', f'{year} {fam} {p.key}: the two copies of {tb} (taxpayer and spouse) show {vals} in {t.split(".")[-1]}; the owners\' numbers are {sorted(ssn.values())}', {'year': year, 'persona': p.describe()})
     return res
 
 
